@@ -101,6 +101,9 @@ class StepWorkerWaiter(Generic[EventType]):
     resolved_event: EventType | None
     # set to true when the waiter has timed out, such that the step raises asyncio.TimeoutError
     timed_out: bool = False
+    # catch_error recovery counts of the waiting invocation's lineage, handed back
+    # to the invocation that is replayed once the wait ends
+    recovery_counts: dict[str, int] = dataclasses.field(default_factory=dict)
 
 
 @dataclass()
